@@ -389,6 +389,9 @@ LEN_FNS = ('core::slice::<impl [T]>::len', 'core::str::<impl str>::len', 'alloc:
            'alloc::string::String::len')
 
 
+IS_EMPTY_FNS = ('core::slice::<impl [T]>::is_empty', 'core::str::<impl str>::is_empty')
+
+
 class Resolver:
     def __init__(self, body, max_depth=40):
         self.b = body
@@ -439,7 +442,7 @@ class Resolver:
         args = [self.operand(a, d) for a in t['args']]
         if fn in LEN_FNS and len(args) == 1:
             return ('len', strip_ref(args[0]))
-        if fn == 'core::slice::<impl [T]>::is_empty' and len(args) == 1:
+        if fn in IS_EMPTY_FNS and len(args) == 1:
             return ('is_empty', strip_ref(args[0]))
         return ('call', fn, tuple(args), bi)
 
